@@ -268,10 +268,12 @@ def run_case(ctx, case):
     for kind in ("etree", "dom"):
         try:
             if case.get("frag"):
-                flat, p, tree = h5.parse_frag(data, container=case.get("container") or "div", kind=kind)
+                flat, p, tree = h5.parse_frag(data, container=case.get("container") or "div", kind=kind, ns=case.get("ns", True))
             else:
-                flat, p, tree = h5.parse_doc(data, kind="etree-full" if kind == "etree" else "dom")
+                flat, p, tree = h5.parse_doc(data, kind="etree-full" if kind == "etree" else "dom", ns=case.get("ns", True))
             tokens = list(h5.walker(kind)(tree))
+            if not case.get("ns", True):
+                ctx.count("streams_with_unnamespaced_html_elements")
         except Exception:
             ctx.count("parse_or_walk_raised")
             continue
@@ -305,6 +307,9 @@ def shard(ctx):
             k += 1
             if ctx.mine(k):
                 run_case(ctx, {"input": s, "lists": lists, "frag": True, "container": "div"})
+                if lists in (None, 2):
+                    # HTML elements reported without a namespace (parser built with namespaceHTMLElements=False)
+                    run_case(ctx, {"input": s, "lists": lists, "frag": True, "container": "div", "ns": False})
     n, idx = 0, ctx.i
     limit = (70000 if ctx.tier == "quick" else 3000000) // ctx.n
     t_end = time.time() + ctx.time_left()
@@ -323,6 +328,8 @@ def shard(ctx):
             data = gen.nesting(rng)
         lists = None if rng.random() < 0.6 else rng.randrange(10 ** 6)
         case = {"input": data, "lists": lists, "frag": rng.random() < 0.7, "container": "div"}
+        if rng.random() < 0.15:
+            case["ns"] = False
         run_case(ctx, case)
         if n <= 3 and ctx.i == 0:
             ctx.sample(case)
